@@ -69,7 +69,10 @@ def render(case, spelling):
         src = ann_source(wrap, name)
         return repr(src) if spelling == 'str' else src
     classes_first = order == 'class-first' or spelling == 'eval'
-    gen = '(typing.Generic[T])' if wrap in SUBBED else ''
+    # the referenced class may itself carry hints for its contents (class Target(list[int])): an instance holding a wrong item
+    # must be rejected through the string spelling exactly as through the evaluated one
+    flavour = case.get('flavour', 'plain') if wrap not in SUBBED else 'plain'
+    gen = '(typing.Generic[T])' if wrap in SUBBED else {'plain': '', 'listint': '(list[int])', 'dictstrint': '(dict[str, int])'}[flavour]
     cls_block = ['class Target%s:' % gen, '    pass', 'class Other:', '    pass', 'class Sub(Target):', '    pass']
     if place == 'module':
         func = ['@beartype', 'def FUNC(p: %s) -> %s:' % (ann('Target'), ann('Target')), '    return p']
@@ -181,9 +184,16 @@ def load(src, stop_before_classes=False):
 def verdicts(mod, wrap):
     out = []
     good, bad = getattr(mod, 'CLS_TARGET', None) or mod.Target, getattr(mod, 'CLS_OTHER', None) or mod.Other
+    target_cls = good
     good, bad = good(), bad()
     sub = (getattr(mod, 'CLS_SUB', None) or mod.Sub)()
-    for i, v in probe_values(wrap, good, bad) + [(100 + i, v) for i, v in probe_values(wrap, sub, bad)[:2]]:
+    deep = None
+    if issubclass(target_cls, list):
+        deep = target_cls(['not an int'])
+    elif issubclass(target_cls, dict):
+        deep = target_cls({'k': 'not an int'})
+    extra = [(200 + i, v) for i, v in probe_values(wrap, deep, bad)[:1]] if deep is not None else []
+    for i, v in probe_values(wrap, good, bad) + [(100 + i, v) for i, v in probe_values(wrap, sub, bad)[:2]] + extra:
         try:
             r = mod.FUNC(v)
             out.append((i, 'ok' if r is v else 'ok-but-changed'))
@@ -198,6 +208,8 @@ def strategy(tier):
             d = dict(d, wrap=d['subbed'])
         d = dict(d)
         del d['subbed']
+        if d['place'] not in SUBBED_PLACES or d['wrap'] in ('set',):
+            d['flavour'] = 'plain'
         return d
     return st.fixed_dictionaries({
         'place': st.sampled_from(['module', 'module', 'method', 'method-classdeco', 'nested-method', 'nested2-method', 'closure', 'closure2',
@@ -205,6 +217,7 @@ def strategy(tier):
         'wrap': st.sampled_from(WRAPS), 'order': st.sampled_from(['class-first', 'class-later', 'class-after-first-call']),
         'spelling': st.sampled_from(['str', 'future']),
         'subbed': st.sampled_from([None, None] + sorted(SUBBED)),
+        'flavour': st.sampled_from(['listint', 'dictstrint', 'plain', 'plain']),
     }).map(fix)
 
 
@@ -255,7 +268,9 @@ def run_case(case):
             got = None
     if got is not None and got != ref:
         d = next((a, b) for a, b in zip(ref, got) if a != b)
-        fail('verdict-differs:%s:%s:%s->%s' % (place, spelling, d[0][1], d[1][1]),
+        # probe 200 = an instance of the referenced class whose own items violate the hints of its container base
+        deep = 'deep-item:' if d[0][0] == 200 else ''
+        fail('verdict-differs:%s:%s:%s%s->%s' % (place, spelling, deep, d[0][1], d[1][1]),
              '%s\nwrap=%s probe %r: evaluated annotations -> %s, %s annotations -> %s' % (src, wrap, d[0][0], d[0][1], spelling, d[1][1]))
     nontriv = case['order'] != 'class-first' or place != 'module'
     return {'fails': fails, 'nontrivial': nontriv, 'evals': len(ref) * 2,
